@@ -17,6 +17,8 @@ class VxError(Exception):
 DROP_MACROS = {"trace", "debug", "info", "warn", "error"}
 
 _src_cache = {}
+SKIPPED = []      # rewrites whose anchor text is absent from the current source
+LOST_HINTS = []   # ghost hints whose anchor statement is absent from the current source
 
 def load_src(repo, rel):
     key = (repo, rel)
@@ -172,7 +174,7 @@ def parse_template(path):
             else:
                 if kw == "end":
                     out.append(("fn", cur)); cur = None; cur_dir = None
-                elif kw in ("props", "nocanary", "mutself"):
+                elif kw in ("props", "nocanary", "mutself", "macro"):
                     cur.directives.append((kw, rest, [], i + 1))
                 else:
                     cur_dir = (kw, rest, [], i + 1)
@@ -290,6 +292,18 @@ def rewrite_for(src, toks, br, loop, spec_text, idx_name, log, kind_hint=None):
             cut = et[len(et) - len(st)].start
             return e[:cut].rstrip()
         return None
+    # X.iter().zip(Y.iter()).enumerate() with pattern (i, (a, b))
+    ne = rlex.norm(expr)
+    mz = re.match(r"^(.*) \. iter \( \) \. zip \( (.*) \. iter \( \) \) \. enumerate \( \)$", ne)
+    if mz:
+        pm = re.match(r"^\(\s*([A-Za-z_][A-Za-z0-9_]*)\s*,\s*\(\s*([A-Za-z_][A-Za-z0-9_]*)\s*,\s*([A-Za-z_][A-Za-z0-9_]*)\s*\)\s*\)$", pat, re.S)
+        if not pm:
+            raise VxError(f"E7: unsupported zip/enumerate pattern `{pat}`")
+        def untok(t): return re.sub(r"\s*([.()\[\]:,])\s*", r"\1", t).replace(",", ", ")
+        X, Y = untok(mz.group(1)), untok(mz.group(2))
+        iv, av, bv = pm.group(1), pm.group(2), pm.group(3)
+        head = f"let mut {n}: usize = 0;\n while {n} < {X}.len() && {n} < {Y}.len()\n{spec_text}\n {{\n let {iv} = {n}; let {av} = &{X}[{n}]; let {bv} = &{Y}[{n}]; {n} += 1;\n"
+        return head, f"for {pat} in {expr} {{ => index loop over zip(`{X}`, `{Y}`) (enumerate)"
     base = strip_suffix(expr, ".iter().enumerate()")
     if base is not None:
         pm = re.match(r"^\(\s*([A-Za-z_][A-Za-z0-9_]*)\s*,\s*(.+?)\s*\)$", pat, re.S)
@@ -348,6 +362,11 @@ def process_fn(repo, glob, fs, log):
                     "before": before[:300], "after": after[:300]})
 
     # --- automatic rules on macros (E3, E4, E5) ---
+    fn_macros = dict(glob["macros"])
+    for (kw, rest, payload, tl) in fs.directives:
+        if kw == "macro":
+            nm, _, repl = rest.partition("=>")
+            fn_macros[nm.strip()] = repl.strip()
     covered = []  # spans already replaced (to skip nested macros)
     def is_covered(off):
         return any(s <= off < e for (s, e) in covered)
@@ -396,8 +415,8 @@ def process_fn(repo, glob, fs, log):
         elif name in ("unreachable", "panic", "unimplemented", "todo"):
             rep = "vx_unreachable()"
             ed.add(start, end, rep, "E5", name); covered.append((start, end)); logrule("E5", start, src[start:end], rep)
-        elif name in glob["macros"]:
-            rep = glob["macros"][name]
+        elif name in fn_macros:
+            rep = fn_macros[name]
             if "$args" in rep:
                 rep = rep.replace("$args", tok_text(src, toks, op + 1, cl))
             ed.add(start, end, rep, "E4", name); covered.append((start, end)); logrule("E4", start, src[start:end], rep)
@@ -421,7 +440,7 @@ def process_fn(repo, glob, fs, log):
     loop_for = {}
     for (kw, rest, payload, tl) in fs.directives:
         what = f"{fs.name} (template line {tl})"
-        if kw in ("block", "nocanary", "props"):
+        if kw in ("block", "nocanary", "props", "macro"):
             continue
         if kw == "mutself":
             # E16: `mut self` parameter (unsupported by Verus) -> `self` rebound to a mutable local, body tokens renamed
@@ -456,7 +475,12 @@ def process_fn(repo, glob, fs, log):
                     a, b = qs
                 else:
                     raise VxError(f"{what}: {kw} needs two strings")
-            spans = find_text(src, lo, hi, a, nth, what)
+            try:
+                spans = find_text(src, lo, hi, a, nth, what)
+            except VxError as e:
+                # a rewrite whose construct is absent has nothing to rewrite: skipped and reported (never fatal)
+                SKIPPED.append({"fn": fs.fid(), "kind": kw, "rule": rule, "text": a[:120], "why": str(e)[:200]})
+                continue
             if nth != "all": spans = [spans]
             for (s, e) in spans:
                 ed.add(s, e, b, rule, kw); logrule(rule, s, src[s:e], b)
@@ -475,7 +499,11 @@ def process_fn(repo, glob, fs, log):
             elif where == "exit":
                 ed.add(hi, hi, "\n" + text, "E13", "hint exit")
             else:
-                s, e = find_text(src, lo, hi, qs[0], nth, what)
+                try:
+                    s, e = find_text(src, lo, hi, qs[0], nth, what)
+                except VxError as ex:
+                    LOST_HINTS.append({"fn": fs.fid(), "anchor": qs[0][:120], "why": str(ex)[:200]})
+                    continue
                 at = s if where == "before" else e
                 ed.add(at, at, "\n" + text, "E13", f"hint {where}")
             log.append({"fn": fs.fid(), "file": fs.rel, "rule": "E13", "line": line_of(src, lo), "note": f"ghost hint {where} {qs[0] if qs else ''}"[:200]})
@@ -645,7 +673,7 @@ def main():
         text = "\n".join(x[0] for x in out_lines) + "\n"
         open(out_rs, "w").write(text)
         linemap = [None if o is None else [o[0], o[1]] for (_, o) in out_lines]
-        json.dump({"unit": glob["unit"], "serves": glob["serves"], "functions": fns, "rewrites": log, "linemap": linemap, "canary_fns": canary_fns, "canary_single": canary_single, "canary_ranges": dup_ranges}, open(out_map, "w"))
+        json.dump({"unit": glob["unit"], "serves": glob["serves"], "functions": fns, "rewrites": log, "linemap": linemap, "skipped_rewrites": SKIPPED, "lost_hints": LOST_HINTS, "canary_fns": canary_fns, "canary_single": canary_single, "canary_ranges": dup_ranges}, open(out_map, "w"))
         print(f"vx: {glob['unit']}: {len(fns)} functions extracted, {len(log)} rule instances")
     except VxError as e:
         print(f"vx: UNDECIDED {e}")
